@@ -193,7 +193,7 @@ def to_float_values(rng, bits, n_rand):
 
 def gen(rng, tier):
     quick = tier == 'quick'
-    nr = 40 if quick else 3000
+    nr = 40 if quick else 12000
     # ---- host FPU validation that does not depend on the width
     for k in range(0, 1101):
         yield 'hw_exp2 0 %x' % k
@@ -295,8 +295,17 @@ def gen(rng, tier):
                     k = max(a.bit_length() - rng.choice([24, 25, 53, 54, 64, 65]), 0)
                     b = (a + rng.choice([-1, 1]) * (1 << k)) % mm
                 yield '%s %d %x %x' % (rng.choice(['mono64', 'mono32']), bits, a, b)
+    # ---- thorough: every f32 exponent x 2^10 mantissas (top ten fraction bits swept, low bits random) at a few widths
+    if not quick:
+        for be in range(0, 0x100):
+            for hi in range(1 << 10):
+                fr = (hi << 13) | rng.getrandbits(13)
+                x = mk32(be, fr)
+                yield 'hw_f32f64 0 %x' % x
+                for bits in (8, 64, 128):
+                    yield 'tryf32 %d %x' % (bits, x)
     # ---- general validation of the IEEE model (+, *, fmod, comparisons) on random pattern pairs
-    n = 4000 if quick else 400000
+    n = 4000 if quick else 1000000
     for _ in range(n):
         def rp64():
             r = rng.random()
